@@ -14,8 +14,12 @@
    Slice 3 adds activation: StartFlow(activated=True) with reference instances and reference counting,
    restart of an activated flow when its instance ends (and at the start_new_flow_instance label),
    deactivation of children when the activator ends.
+   Slice 4 adds ageing: _clean_up_state at the start of every run_to_completion discards finished / failed
+   instances whose last status change is more than 5 s old (flag `old`, set by the environment action Tick)
+   unless they are still activated or the parent of a running or activated instance; a discarded instance keeps
+   its slot with status "GONE" (other flows may still hold a reference to the object).
    NOT yet modelled (programs using them are outside the fragment): flow parameters, priority
-   statements, named loops, explicit FinishFlow / StopFlow events, ageing.
+   statements, named loops, explicit FinishFlow / StopFlow events.
 
    The program is the REAL compiler output (FlowConfig.elements exported as JSON by
    harness/colang2.export_sm): P below.  One TLA+ step = one run_to_completion call (macro step),
@@ -275,16 +279,16 @@ AddInstance(S, fid, hier, uidn) ==
   LET k  == Len(S.flows) + 1
       f  == [fid |-> fid, uid |-> uidn, status |-> "WAITING", parent |-> 0, parentHead |-> 0, children |-> <<>>, activated |-> 0,
              loop |-> <<"none", 0>>, hier |-> hier, ctx |-> <<>>, actions |-> <<>>, heads |-> <<NewHead(1, 0, <<>>, <<>>, <<>>)>>,
-             forks |-> <<>>, scopes |-> <<>>, newinst |-> FALSE, nexthid |-> 2]
+             forks |-> <<>>, scopes |-> <<>>, newinst |-> FALSE, nexthid |-> 2, old |-> FALSE]
       S1 == [S EXCEPT !.flows = Append(@, f)]
   IN HeadChanged(S1, k, 1)
-UidToInst(S, u) == IF u[1] = "uid" /\ \E k \in 1..Len(S.flows) : S.flows[k].uid = u[2]
-                     THEN CHOOSE k \in 1..Len(S.flows) : S.flows[k].uid = u[2] ELSE 0
+UidToInst(S, u) == IF u[1] = "uid" /\ \E k \in 1..Len(S.flows) : S.flows[k].uid = u[2] /\ S.flows[k].status # "GONE"
+                     THEN CHOOSE k \in 1..Len(S.flows) : S.flows[k].uid = u[2] /\ S.flows[k].status # "GONE" ELSE 0
 
 IsRefActivated(S, k) ==      \* _is_reference_activated_flow
   LET f == Fl(S, k) IN f.activated > 0 /\ f.parent # 0 /\ f.fid # Fl(S, f.parent).fid
 IsChildActivated(S, k) ==    \* _is_child_activated_flow
-  LET f == Fl(S, k) IN f.activated > 0 /\ f.parent # 0 /\ f.fid = Fl(S, f.parent).fid
+  LET f == Fl(S, k) IN f.activated > 0 /\ f.parent # 0 /\ Fl(S, f.parent).status # "GONE" /\ f.fid = Fl(S, f.parent).fid
 (* FlowState.start_event for a restart: same hierarchy position, new instance uid, activation count carried over *)
 RestartEvent(S, k, scores) ==
   LET f   == Fl(S, k)
@@ -302,11 +306,11 @@ ClearHeads(S, k) ==          \* remove all heads from the index and from the flo
   LET S1 == [S EXCEPT !.index = RemoveAll(@, LAMBDA x : x.k = k)] IN [S1 EXCEPT !.flows[k].heads = <<>>]
 RemoveFromParent(S, k) ==
   LET f == Fl(S, k) IN
-  IF f.activated = 0 /\ f.parent # 0 THEN [S EXCEPT !.flows[f.parent].children = SeqRemove(@, k)] ELSE S
+  IF f.activated = 0 /\ f.parent # 0 /\ Fl(S, f.parent).status # "GONE" THEN [S EXCEPT !.flows[f.parent].children = SeqRemove(@, k)] ELSE S
 (* "Abort/deactivate all running child flows": every child that is not a child-activated instance, with deactivate = True *)
 AbortKids(S, kids, scores) ==
   IF kids = <<>> THEN S
-  ELSE IF IsChildActivated(S, Head(kids)) THEN AbortKids(S, Tail(kids), scores)
+  ELSE IF Fl(S, Head(kids)).status = "GONE" \/ IsChildActivated(S, Head(kids)) THEN AbortKids(S, Tail(kids), scores)
   ELSE AbortKids(AbortFlow(S, Head(kids), scores, TRUE), Tail(kids), scores)
 (* a reference instance whose count dropped to 0: abort the instances restarted from it *)
 AbortActivatedKids(S, kids, scores) ==
@@ -720,10 +724,27 @@ Outer(S, act, fuel) ==
      ELSE LET ad == AdvanceFront(r.S, r.adv) IN Outer(ad.S, ad.act, fuel - 1)
 ClearScores(S) == [S EXCEPT !.flows = [k \in 1..Len(@) |-> [@[k] EXCEPT !.heads = [q \in 1..Len(@) |-> [@[q] EXCEPT !.scores = <<>>]]]]]
 DropUnreferencedActions(S) ==
-  [S EXCEPT !.actions = [a \in 1..Len(@) |-> IF \E k \in 1..Len(S.flows) : a \in Range(S.flows[k].actions) THEN @[a] ELSE [@[a] EXCEPT !.status = "DELETED"]]]
+  [S EXCEPT !.actions = [a \in 1..Len(@) |-> IF \E k \in 1..Len(S.flows) : S.flows[k].status # "GONE" /\ a \in Range(S.flows[k].actions)
+                                               THEN @[a] ELSE [@[a] EXCEPT !.status = "DELETED"]]]
+(* _clean_up_state, the age-dependent part *)
+DoneF(f) == f.status \in {"STOPPED", "FINISHED"}
+RefParents(S) == {S.flows[k].parent : k \in {q \in 1..Len(S.flows) : S.flows[q].status # "GONE" /\ S.flows[q].parent # 0
+                                                                       /\ (~DoneF(S.flows[q]) \/ S.flows[q].activated > 0)}}
+Removable(S) == {k \in 1..Len(S.flows) : DoneF(S.flows[k]) /\ S.flows[k].old /\ S.flows[k].activated = 0 /\ k \notin RefParents(S)}
+RECURSIVE RemoveInOrder(_, _, _)
+RemoveInOrder(S, X, k) ==        \* in the order of the instances, as the code walks its dictionary
+  IF k > Len(S.flows) THEN S
+  ELSE IF k \notin X THEN RemoveInOrder(S, X, k + 1)
+  ELSE LET p  == Fl(S, k).parent
+           S1 == IF p # 0 /\ Fl(S, p).status # "GONE" /\ k \in Range(Fl(S, p).children)
+                   THEN [S EXCEPT !.flows[p].children = SeqRemove(@, k)] ELSE S
+       IN RemoveInOrder([S1 EXCEPT !.flows[k].status = "GONE"], X, k + 1)
+CleanUp(S) == RemoveInOrder(S, Removable(S), 1)
+(* environment: more than 5 s pass - every instance that is finished / failed by now has an old time stamp *)
+Tick(S) == [S EXCEPT !.flows = [k \in 1..Len(@) |-> IF DoneF(@[k]) THEN [@[k] EXCEPT !.old = TRUE] ELSE @[k]]]
 (* nev counts the internal events processed by this call; fuelout is set where a recursion budget of the
    specification ran out, i.e. where the code (which has no budget) would not have returned *)
-Run(S, ev, pick) == Outer(DropUnreferencedActions(ClearScores([S EXCEPT !.queue = <<ev>>, !.out = <<>>, !.pick = pick, !.nev = 0])), <<>>, 50)
+Run(S, ev, pick) == Outer(DropUnreferencedActions(CleanUp(ClearScores([S EXCEPT !.queue = <<ev>>, !.out = <<>>, !.pick = pick, !.nev = 0]))), <<>>, 50)
 
 (* initialize_state: the main instance, waiting at position 0 *)
 Init0 ==
